@@ -305,6 +305,63 @@ func extractScript(repo, out string) ([]string, error) {
 			scrNodeText(fset, rs) == "return left == right" {
 			sameValueGuard = true
 		}
+		// the shape after the proposed fix C12_iface_field_panic (struct/array kinds go through sameHolder)
+		if ok1 && ok2 && is.Init != nil && scrNodeText(fset, is.Init) == "lt := reflect.TypeOf(left)" &&
+			scrNodeText(fset, is.Cond) == "lt != nil" && len(is.Body.List) == 2 && is.Else == nil &&
+			strings.Join(strings.Fields(scrNodeText(fset, is.Body.List[0])), " ") == "if !lt.Comparable() { return false }" &&
+			strings.Contains(scrNodeText(fset, is.Body.List[1]), "return sameHolder(left, right)") &&
+			scrNodeText(fset, rs) == "return left == right" {
+			sameValueGuard = true
+		}
+	}
+	// round 3: the SHAPE of sameValue's comparability test. The model (`Script.comparable`, `Script.sameValue`)
+	// has a reflect test on the left operand's TYPE; a list of types instead (C12-m7) leaves every type outside
+	// the list to the raw ==. Facts: the guard `!lt.Comparable()` with `lt := reflect.TypeOf(left)` whose first
+	// statement is `return false`; the number of type switches / type assertions in sameValue (and in its
+	// helper sameHolder, present after the proposed fix C12_iface_field_panic); the number of raw `left == right`.
+	svReflectGuard, svFound := false, false
+	svTypeTests, svRawEq := 0, 0
+	svHolderRecover := false
+	for _, d := range sf.Decls {
+		fd, ok := d.(*ast.FuncDecl)
+		if !ok || fd.Recv != nil || (fd.Name.Name != "sameValue" && fd.Name.Name != "sameHolder") {
+			continue
+		}
+		if fd.Name.Name == "sameValue" {
+			svFound = true
+		}
+		typeOfLeft := false
+		ast.Inspect(fd.Body, func(n ast.Node) bool {
+			switch t := n.(type) {
+			case *ast.TypeSwitchStmt, *ast.TypeAssertExpr:
+				svTypeTests++
+			case *ast.AssignStmt:
+				if scrNodeText(fset, t) == "lt := reflect.TypeOf(left)" {
+					typeOfLeft = true
+				}
+			case *ast.IfStmt:
+				if t.Init != nil && scrNodeText(fset, t.Init) == "lt := reflect.TypeOf(left)" {
+					typeOfLeft = true
+				}
+				if scrNodeText(fset, t.Cond) == "!lt.Comparable()" || scrNodeText(fset, t.Cond) == "lt != nil && !lt.Comparable()" {
+					if len(t.Body.List) >= 1 && scrNodeText(fset, t.Body.List[0]) == "return false" && typeOfLeft && fd.Name.Name == "sameValue" {
+						svReflectGuard = true
+					}
+				}
+			case *ast.BinaryExpr:
+				if t.Op == token.EQL && scrNodeText(fset, t) == "left == right" {
+					svRawEq++
+				}
+			case *ast.CallExpr:
+				if id, ok := t.Fun.(*ast.Ident); ok && id.Name == "recover" && fd.Name.Name == "sameHolder" {
+					svHolderRecover = true
+				}
+			}
+			return true
+		})
+	}
+	if !svFound {
+		return nil, fmt.Errorf("script extractor: function sameValue not found in jp/script.go")
 	}
 	type eqSite struct {
 		label     string
@@ -363,6 +420,81 @@ func extractScript(repo, out string) ([]string, error) {
 	}
 	// evalWithRoot: is a template that is exactly one path evaluated as an existence test?
 	//   if len(s.template) == 1 { _, bare = s.template[0].(Expr) }   and   if bare { match = sstack[0] != Nothing }
+	// round 3: which Go types the Normalize switch of evalWithRoot and the function normalize convert, and to what
+	// (`case int8: sstack[i] = int64(x)` / `case int8: v = int64(tv)`): the constructors of `Script.Core`.
+	var normSwitch, normFn [][2]string
+	readNormCases := func(body *ast.BlockStmt, lhs string) (out [][2]string) {
+		for _, cs := range body.List {
+			cc, ok := cs.(*ast.CaseClause)
+			if !ok || len(cc.List) != 1 || len(cc.Body) != 1 {
+				continue
+			}
+			as, ok := cc.Body[0].(*ast.AssignStmt)
+			if !ok || len(as.Lhs) != 1 || len(as.Rhs) != 1 || scrNodeText(fset, as.Lhs[0]) != lhs {
+				continue
+			}
+			call, ok := as.Rhs[0].(*ast.CallExpr)
+			if !ok || len(call.Args) != 1 {
+				continue
+			}
+			if _, isIdent := call.Args[0].(*ast.Ident); !isIdent {
+				continue
+			}
+			out = append(out, [2]string{scrNodeText(fset, cc.List[0]), scrNodeText(fset, call.Fun)})
+		}
+		return
+	}
+	for _, d := range sf.Decls {
+		fd, ok := d.(*ast.FuncDecl)
+		if !ok {
+			continue
+		}
+		if fd.Recv != nil && fd.Name.Name == "evalWithRoot" {
+			ast.Inspect(fd.Body, func(n ast.Node) bool {
+				ls, ok := n.(*ast.LabeledStmt)
+				if !ok || ls.Label.Name != "Normalize" {
+					return true
+				}
+				if ts, ok := ls.Stmt.(*ast.TypeSwitchStmt); ok {
+					normSwitch = readNormCases(ts.Body, "sstack[i]")
+				}
+				return true
+			})
+		}
+		if fd.Recv == nil && fd.Name.Name == "normalize" {
+			ast.Inspect(fd.Body, func(n ast.Node) bool {
+				if ts, ok := n.(*ast.TypeSwitchStmt); ok {
+					normFn = readNormCases(ts.Body, "v")
+				}
+				return true
+			})
+		}
+	}
+	if len(normSwitch) == 0 || len(normFn) == 0 {
+		return nil, fmt.Errorf("script extractor: the Normalize switch of evalWithRoot (%d conversions) or func normalize (%d) not found", len(normSwitch), len(normFn))
+	}
+	// round 3: the ORDER of the tests that decide the per-element verdict (the statement after `var match bool`):
+	// (condition, what the branch does) with `existence` = `match = sstack[0] != Nothing`, `expand` = the
+	// expandStack loop, `eval` = evalStack(sstack) directly. The model's matchElem tests bare first (C12-m8
+	// tested multi first: a bare multi-valued path then needs a `true` among its values).
+	var verdictBranches [][2]string
+	branchKind := func(b []ast.Stmt) string {
+		var sb strings.Builder
+		for _, st := range b {
+			sb.WriteString(scrNodeText(fset, st))
+			sb.WriteByte('\n')
+		}
+		src := sb.String()
+		switch {
+		case strings.Contains(src, "match = sstack[0] != Nothing"):
+			return "existence"
+		case strings.Contains(src, "expandStack("):
+			return "expand"
+		case strings.Contains(src, "evalStack(sstack)"):
+			return "eval"
+		}
+		return "other"
+	}
 	bareAssign, bareUse, sawEvalWithRoot := false, false, false
 	for _, d := range sf.Decls {
 		fd, ok := d.(*ast.FuncDecl)
@@ -384,6 +516,57 @@ func extractScript(repo, out string) ([]string, error) {
 			}
 			return true
 		})
+		ast.Inspect(fd.Body, func(n ast.Node) bool {
+			blk, ok := n.(*ast.BlockStmt)
+			if !ok {
+				return true
+			}
+			for i, st := range blk.List {
+				if scrNodeText(fset, st) != "var match bool" || i+1 >= len(blk.List) {
+					continue
+				}
+				switch t := blk.List[i+1].(type) {
+				case *ast.IfStmt:
+					var cur ast.Stmt = t
+					for cur != nil {
+						switch c := cur.(type) {
+						case *ast.IfStmt:
+							verdictBranches = append(verdictBranches, [2]string{scrNodeText(fset, c.Cond), branchKind(c.Body.List)})
+							cur = c.Else
+						case *ast.BlockStmt:
+							verdictBranches = append(verdictBranches, [2]string{"else", branchKind(c.List)})
+							cur = nil
+						default:
+							cur = nil
+						}
+					}
+				case *ast.SwitchStmt:
+					if t.Tag == nil {
+						for _, cs := range t.Body.List {
+							cc := cs.(*ast.CaseClause)
+							cond := "else"
+							if len(cc.List) > 0 {
+								var parts []string
+								for _, e := range cc.List {
+									parts = append(parts, scrNodeText(fset, e))
+								}
+								cond = strings.Join(parts, ", ")
+							}
+							verdictBranches = append(verdictBranches, [2]string{cond, branchKind(cc.Body)})
+						}
+					}
+				}
+			}
+			return true
+		})
+		for _, vb := range verdictBranches {
+			if vb[0] == "bare" && vb[1] == "existence" {
+				bareUse = true // also when the chain is written as a switch
+			}
+		}
+	}
+	if sawEvalWithRoot && len(verdictBranches) == 0 {
+		return nil, fmt.Errorf("script extractor: no if/switch after `var match bool` in evalWithRoot")
 	}
 	if !sawEvalWithRoot {
 		return nil, fmt.Errorf("script extractor: method evalWithRoot not found in jp/script.go")
@@ -500,6 +683,32 @@ func extractScript(repo, out string) ([]string, error) {
 	}
 	b.WriteString("]\n\n")
 	fmt.Fprintf(&b, "/-- evalWithRoot has `if len(s.template) == 1 { _, bare = s.template[0].(Expr) }` and `if bare { match = sstack[0] != Nothing }` -/\ndef bareExistence : Bool := %v\n\n", bareAssign && bareUse)
+	b.WriteString("/-- the tests deciding the per-element verdict in evalWithRoot, in source order: (condition, branch kind) -/\ndef verdictBranches : List (String × String) := [")
+	for i, vb := range verdictBranches {
+		if i > 0 {
+			b.WriteString(", ")
+		}
+		fmt.Fprintf(&b, "(%s, %s)", scrLeanStr(vb[0]), scrLeanStr(vb[1]))
+	}
+	b.WriteString("]\n\n")
+	for _, nl := range []struct {
+		name, doc string
+		rows      [][2]string
+	}{{"normSwitch", "the converting cases of the `Normalize:` type switch in evalWithRoot: (case type, conversion)", normSwitch},
+		{"normFn", "the converting cases of func normalize: (case type, conversion)", normFn}} {
+		fmt.Fprintf(&b, "/-- %s -/\ndef %s : List (String × String) := [", nl.doc, nl.name)
+		for i, r := range nl.rows {
+			if i > 0 {
+				b.WriteString(", ")
+			}
+			fmt.Fprintf(&b, "(%s, %s)", scrLeanStr(r[0]), scrLeanStr(r[1]))
+		}
+		b.WriteString("]\n\n")
+	}
+	fmt.Fprintf(&b, "/-- sameValue tests `!lt.Comparable()` on `lt := reflect.TypeOf(left)` and then returns false -/\ndef svReflectGuard : Bool := %v\n\n", svReflectGuard)
+	fmt.Fprintf(&b, "/-- type switches and type assertions inside sameValue (and sameHolder) -/\ndef svTypeTests : Nat := %d\n\n", svTypeTests)
+	fmt.Fprintf(&b, "/-- raw `left == right` comparisons inside sameValue (and sameHolder) -/\ndef svRawEq : Nat := %d\n\n", svRawEq)
+	fmt.Fprintf(&b, "/-- a helper sameHolder with a deferred recover exists (proposed fix C12_iface_field_panic applied) -/\ndef svHolderRecover : Bool := %v\n\n", svHolderRecover)
 	b.WriteString("/-- exported builder functions of jp/equation.go and the operator variable they install -/\ndef builders : List (String × String) := [")
 	for i, e := range builders {
 		if i > 0 {
